@@ -5,6 +5,7 @@ import (
 	"math/rand/v2"
 	"strings"
 
+	"github.com/fido-device-onboard/go-fdo/kex"
 	"github.com/fido-device-onboard/go-fdo/protocol"
 
 	"verif/harness/internal/gen"
@@ -41,7 +42,7 @@ type c08Gen struct {
 }
 
 func (g *c08Gen) live(k int) bool {
-	return k < len(g.rw.sess) && g.rw.sess[k].token != "" && g.rw.st.Live(g.rw.sess[k].token)
+	return k < len(g.rw.sess) && g.rw.sess[k].token != "" && g.rw.live(g.rw.sess[k].token)
 }
 
 func (g *c08Gen) base(k int, typ int) rawReq {
@@ -158,6 +159,10 @@ func (g *c08Gen) perturb(q rawReq) rawReq {
 	case 0:
 		q.Tok = "n"
 	case 1:
+		if k := sessIdx(q.Tok); k >= 0 && g.r.IntN(3) != 0 {
+			// the session's own token with its authenticator or id damaged
+			q.Variant = fmt.Sprintf("badtok:%s:%d", []string{"flipmac", "zeromac", "flipid", "truncated", "extended"}[g.r.IntN(5)], k)
+		}
 		q.Tok = "b"
 	case 2:
 		q.Tok = fmt.Sprintf("s%d", g.r.IntN(n))
@@ -206,7 +211,14 @@ func (g *c08Gen) perturb(q rawReq) rawReq {
 			return q2
 		}
 	case 11:
-		q.Typ = 255
+		// an error message (any previous-message type, any body), or a response type sent as a request
+		q.Typ = []int{255, 255, 255, 255, 11, 13, 21, 23, 31, 33, 61, 63, 65, 67, 69, 71}[g.r.IntN(16)]
+		if q.Typ == 255 {
+			q.Variant = []string{"", "prev0", "prev14", "prev255", "prev10", "prev22", "prev32", "prev99", "prev70"}[g.r.IntN(9)]
+			if g.r.IntN(5) == 0 {
+				q.Wf, q.Variant = false, []string{"empty", "truncated", "wrongtype", "random"}[g.r.IntN(4)]
+			}
+		}
 	}
 	return q
 }
@@ -230,13 +242,18 @@ func c08(x *runCtx) {
 	kinds := []lab.Kind{lab.KindByName("P-256"), lab.KindByName("P-384")}
 	for i := 0; i < nseq; i++ {
 		k := kinds[i%len(kinds)]
-		c08Sequence(x, r, k, i%5 == 4, 10+r.IntN(21), i)
+		backend := "mem"
+		if i%4 == 3 {
+			backend = "sqlite" // the library's own store: token authenticity is its HMAC
+		}
+		c08Sequence(x, r, backend, k, i%5 == 4, 10+r.IntN(21), i)
 	}
 }
 
-func c08Sequence(x *runCtx, r *rand.Rand, k lab.Kind, reuse bool, length int, seqNo int) {
+func c08Sequence(x *runCtx, r *rand.Rand, backend string, k lab.Kind, reuse bool, length int, seqNo int) {
 	ndev := 3
-	rw := newRawWorld(k, protocol.X509KeyEnc, ndev, reuse)
+	rw := newRawWorldOn(backend, k, protocol.X509KeyEnc, ndev, reuse, kexFor(k), kex.A128GcmCipher)
+	defer rw.close()
 	g := &c08Gen{r: r, rw: rw, ndev: ndev, reuse: reuse}
 	var lines, impls []string
 	var blobs []string
@@ -389,6 +406,20 @@ func c08Sequence(x *runCtx, r *rand.Rand, k lab.Kind, reuse bool, length int, se
 	}
 	x.r.Sample(map[string]any{"kind": k.Name, "reuse": reuse, "requests": lines, "impl": impls}, 3)
 	line := fmt.Sprintf("server.run r%s v1,2,3 b m2 %s", b01(reuse), key)
-	in := fmt.Sprintf("kind=%s reuse=%v seq=%d: %s", k.Name, reuse, seqNo, key)
-	x.c.add(pending{check: "C08.server-model", line: line, impl: strings.Join(impls, " "), input: in})
+	in := fmt.Sprintf("backend=%s kind=%s reuse=%v seq=%d: %s", backend, k.Name, reuse, seqNo, key)
+	p := pending{check: "C08.server-model", line: line, impl: strings.Join(impls, " "), input: in}
+	if backend == "sqlite" {
+		// liveness of a SQLite session is not observable from outside: compare response types and effects
+		strip := func(s string) string {
+			parts := strings.Fields(s)
+			for i, f := range parts {
+				if j := strings.LastIndex(f, "/"); j >= 0 {
+					parts[i] = f[:j]
+				}
+			}
+			return strings.Join(parts, " ")
+		}
+		p.impl, p.norm = strip(p.impl), strip
+	}
+	x.c.add(p)
 }
